@@ -377,6 +377,13 @@ class Sim:
         self.monitors = monitors
         self.clients = [Client(i, spec, self) for i, spec in enumerate(record['clients'])]
         self.op_index = -1
+        for spec in record.get('clients', []):
+            for k in spec.get('knobs', []) if isinstance(spec, dict) else []:
+                ctx.probe('knob:' + k)
+            if isinstance(spec, dict) and spec.get('via_factory'):
+                ctx.probe('knob:components_through_factories')
+        if record.get('alias_objects'):
+            ctx.probe('knob:object_identity_aliasing')
         for m in monitors:
             m.sim = self
             if hasattr(m, 'on_start'):
